@@ -605,22 +605,32 @@ func runC15(c *Ctx) {
 	}
 	// digit loop guard present
 	digitGuard := false
+	// the loop's position, or the position just advanced (a test at the bottom of
+	// the loop sees right+1)
+	isPos := func(v ssa.Value) bool {
+		v = stripConv(v)
+		if _, isPhi := v.(*ssa.Phi); isPhi {
+			return true
+		}
+		if b, ok := v.(*ssa.BinOp); ok && b.Op == token.ADD {
+			_, px := stripConv(b.X).(*ssa.Phi)
+			k, isK := constInt64(b.Y)
+			return px && isK && k == 1
+		}
+		return false
+	}
 	for _, f := range g.AllEdgeFacts() {
 		if f.Y != nil && f.Op == token.LSS {
-			if k, ok := constUint64(f.Y); ok && k == maxBuf {
-				if _, isPhi := f.X.(*ssa.Phi); isPhi {
-					digitGuard = true
-				}
+			if k, ok := constUint64(f.Y); ok && k == maxBuf && isPos(f.X) {
+				digitGuard = true
 			}
 		}
 	}
 	// any guard `x < K` with K > maxBufSize on a phi is a violation
 	for _, f := range g.AllEdgeFacts() {
 		if f.Y != nil && f.Op == token.LSS {
-			if k, ok := constUint64(f.Y); ok && k > maxBuf {
-				if _, isPhi := f.X.(*ssa.Phi); isPhi {
-					digitGuard = false
-				}
+			if k, ok := constUint64(f.Y); ok && k > maxBuf && isPos(f.X) {
+				digitGuard = false
 			}
 		}
 	}
